@@ -137,7 +137,10 @@ fn sampled(rng: &mut Rng, c08: bool) -> Scenario {
             _ => rng.sign() * rng.logu(1e-15, 1e15),
         };
         let dir = *rng.pick(&[Dir::All, Dir::All, Dir::Pos, Dir::Neg]);
-        sc.events.push(EventSpec { kind, scale, dir, terminal: None });
+        // C08 also looks at what is reported when a terminal event stops the run (C09's counting
+        // rule is about complete, uninterrupted histories)
+        let terminal = if c08 && rng.bool(0.12) { Some(rng.int(1, 2)) } else { None };
+        sc.events.push(EventSpec { kind, scale, dir, terminal });
     }
     sc
 }
@@ -398,6 +401,13 @@ impl Prop for C08 {
                 // the direction clause presupposes a single root in the step (with several, which one
                 // a root finder returns is unspecified): sample g on the bracketing step and skip
                 // the clause when more than one sign change is visible
+                if !endpoints_known && !matches!(e.kind, EvKind::Time { .. }) {
+                    // the accepted grid is not observable (first_step filtering, or a terminal stop
+                    // whose event point merged with a step end): only a function with a single
+                    // root overall keeps the precondition
+                    cov.bump("direction_clause_skipped_grid_unknown");
+                    continue;
+                }
                 if endpoints_known {
                     if let Some(k) = (0..s.t.len() - 1).find(|&k| in_closed(t, s.t[k], s.t[k + 1])) {
                         // (the window of root-finder accuracy around the event counts as well: two
